@@ -77,6 +77,48 @@ theorem C11_stepFlush_fault_latches (fuel : Nat) (w : World) (ctx : StepCtx) (pk
   obtain ⟨w', h1, _, _⟩ := ioFlush_fault w k hs hk
   simp [doStepFlush, h1]
 
+/-- **`disconnect()` ends the connection also when its preliminary flush fails without a transport
+error** (F25, fixed in the crate: `disconnect_with` calls `handle_disconnect()` before it returns the
+error of `flush_outbound`). A write that accepts nothing (`Ok(0)`, decision 251) of a queued packet
+inside `disconnect`: the call reports `WriteZero` and the handle is dead… -/
+theorem C11_disconnect_flush_writeZero_latches (fuel : Nat) (w : World) (d : Disconnect) (pkt : Flushed)
+    (bytes : Bytes) (written len now : Nat) (hs : w.slot = some 251) :
+    (doStepWrite (fuel + 1) w (.flush (.discPre d)) pkt bytes written len now).live = false ∧
+    (doStepWrite (fuel + 1) w (.flush (.discPre d)) pkt bytes written len now).lastRes = some (.error .writeZero) := by
+  have h1 : ∃ w', w.ioWrite (bytes.drop written) = (w', .zero) := by
+    unfold World.ioWrite; rw [hs]; exact ⟨_, rfl⟩
+  obtain ⟨w', h1⟩ := h1
+  simp [doStepWrite, h1]
+
+/-- …whereas the same `Ok(0)` met by `poll`/`recv`/`drive` or by the flush of a publish, subscribe or
+unsubscribe is reported and leaves the handle as it was (`WriteZero` is not a transport error; the
+packet is not torn, the next call offers the rest of it). -/
+theorem C11_writeZero_elsewhere_keeps_handle (fuel : Nat) (w : World) (ctx : StepCtx) (pkt : Flushed)
+    (bytes : Bytes) (written len now : Nat) (hs : w.slot = some 251) (hctx : ∀ d, ctx ≠ .flush (.discPre d)) :
+    (doStepWrite (fuel + 1) w ctx pkt bytes written len now).live = w.live ∧
+    (doStepWrite (fuel + 1) w ctx pkt bytes written len now).lastRes = some (.error .writeZero) := by
+  have h1 : w.ioWrite (bytes.drop written) =
+      (({ w with slot := none, lastIoStarved := false } : World).emit s!"wz {w.netIdx}", .zero) := by
+    unfold World.ioWrite; rw [hs]; rfl
+  rcases discFail_cases (({ w with slot := none, lastIoStarved := false } : World).emit s!"wz {w.netIdx}") ctx with ⟨e, _⟩ | ⟨_, d, hd⟩
+  · simp only [doStepWrite, h1, e]; exact ⟨rfl, rfl⟩
+  · exact (hctx d hd).elim
+
+/-- Every other way the preliminary flush of `disconnect` can fail — a queued packet that cannot be
+encoded or exceeds the broker's packet size limit (`prepareStep` fails), a PINGREQ that cannot be
+queued — ends the connection too. -/
+theorem C11_disconnect_flush_fail_latches (fuel : Nat) (w : World) (d : Disconnect) (step : Outbound.Step)
+    (now : Nat) (e : Err) (hp : prepareStep w step = .fail e) :
+    (performStep (fuel + 1) w (.flush (.discPre d)) step now).live = false ∧
+    (performStep (fuel + 1) w (.flush (.discPre d)) step now).lastRes = some (.error e) := by
+  simp [performStep, hp]
+
+theorem C11_disconnect_pingreq_fail_latches (fuel : Nat) (w : World) (d : Disconnect) (e : Err)
+    (hq : w.maybeQueuePingreq w.now = .error e) :
+    (flushLoop (fuel + 1) w (.discPre d)).live = false ∧
+    (flushLoop (fuel + 1) w (.discPre d)).lastRes = some (.error e) := by
+  simp [flushLoop, hq]
+
 /-- QoS 0 PUBLISH (`which = 1`) and DISCONNECT (`which = 2`) written from their local buffer:
 a transport error on write or flush kills the handle. -/
 theorem C11_localWrite_fault_latches (fuel : Nat) (w : World) (which : Nat) (bytes : Bytes) (k : Nat)
